@@ -240,6 +240,54 @@ func inOffers(got string, offers []offer) bool {
 	return false
 }
 
+func strictPrefixEither(a, b string) bool {
+	a, b = strings.ToLower(a), strings.ToLower(b)
+	return a != b && (strings.HasPrefix(a, b) || strings.HasPrefix(b, a))
+}
+
+// tokenCovers is the literal relation "range token covers offer" of RFC 9110: "*" covers
+// everything, charsets and content codings match as whole tokens (case-insensitively); a
+// language range matches a tag it equals or is a "-"-bounded prefix of (RFC 4647 basic
+// filtering) and, leniently, a tag that is a "-"-bounded prefix of the range (lookup reading).
+func tokenCovers(k int, rangeTok, offer string) bool {
+	if rangeTok == "*" {
+		return true
+	}
+	a, b := strings.ToLower(rangeTok), strings.ToLower(offer)
+	if a == b {
+		return true
+	}
+	if k == kLanguage {
+		return strings.HasPrefix(b, a+"-") || strings.HasPrefix(a, b+"-")
+	}
+	return false
+}
+
+// tokenRelation / mediaRelation name how the selected offer relates to the nearest live range:
+// the input class of a "range-does-not-cover-offer" rejection.
+func tokenRelation(h []rng, live []lr, offer string) string {
+	for _, x := range live {
+		if strictPrefixEither(h[x.idx].typ, offer) {
+			return "offer-and-range-token-differ-by-prefix"
+		}
+	}
+	return "unrelated-tokens"
+}
+
+func mediaRelation(h []rng, live []lr, o *offer) string {
+	rel := "unrelated-types"
+	for _, x := range live {
+		r := &h[x.idx]
+		switch {
+		case strictPrefixEither(r.typ, o.typ) && (r.sub == "*" || strings.EqualFold(r.sub, o.sub)):
+			return "offer-and-range-type-differ-by-prefix"
+		case strings.EqualFold(r.typ, o.typ) && strictPrefixEither(r.sub, o.sub):
+			rel = "offer-and-range-subtype-differ-by-prefix"
+		}
+	}
+	return rel
+}
+
 // typeMatches is the structural relation "media range r covers explicit media type o".
 func typeMatches(r *rng, o *offer) bool {
 	if r.typ == "*" {
@@ -322,7 +370,7 @@ func (s *sess) judge(k int, h []rng, offers []offer, present bool) (*verdict, bo
 					break
 				}
 			}
-			if o != nil {
+			if o != nil && o.typ != "" {
 				cands, sat := 0, false
 				for _, x := range live {
 					r := &h[x.idx]
@@ -334,9 +382,24 @@ func (s *sess) judge(k int, h []rng, offers []offer, present bool) (*verdict, bo
 						}
 					}
 				}
-				if cands > 0 && !sat {
+				if cands == 0 {
+					return &verdict{clause: "range-does-not-cover-offer", decided: mediaRelation(h, live, o), got: got, header: header}, true
+				}
+				if !sat {
 					return &verdict{clause: "param-missing", decided: "-", got: got, header: header}, true
 				}
+			}
+		}
+		if k != kMedia && got != "" {
+			covered := false
+			for _, x := range live {
+				if tokenCovers(k, h[x.idx].typ, got) {
+					covered = true
+					break
+				}
+			}
+			if !covered {
+				return &verdict{clause: "range-does-not-cover-offer", decided: tokenRelation(h, live, got), got: got, header: header}, true
 			}
 		}
 		return nil, true
